@@ -1290,22 +1290,92 @@ def unlink_step(sh):
 REOPENS = ['reopen rw', 'reopen ro', 'reopen other', 'reopen otherw']
 
 
-def ro_phase(sh):
-    """a read-only session: queries only, then back to read-write"""
+def ro_prepare(sh):
+    """in the read-write session: an array with expansion origin, label, unit and a sampled descriptor (interval, offset,
+    label, unit all written), and a property with uncertainty and unit — attributes that EXIST, so that the refused
+    setters of the read-only session are overwrites; returns (array, property) ordinals or None"""
     rnd = sh.rnd
+    bs = sh.live('B')
+    ss = sh.live('S')
+    a = p = None
+    if bs:
+        b = rnd.choice(bs)
+        a = sh.mk(b, 'A', sh.pick_new_name(b, 'A', 0.1), 't', rnd.choice(['Double 1 4', 'Int32 2 2 3', 'Float 1 2']))
+        sh.emit('dim %d sampled' % a)
+        sh.emit('dimset %d 1 %d' % (a, rnd.randrange(1000)))
+        sh.emit('setorigin %d %s' % (a, rnd.choice(DVALS)))
+        sh.emit('setlabel %d %s' % (a, hx('volt')))
+        sh.emit('setunit %d %s' % (a, hx('mV')))
+        sh.emit('setdef %d %s' % (a, hx('an array')))
+    if ss:
+        s = rnd.choice(ss)
+        p = sh.mk(s, 'P', sh.pick_new_name(s, 'P', 0.1), '', 'v 2 Double Double')
+        sh.emit('puncert %d %s' % (p, rnd.choice(DVALS)))
+        sh.emit('punit %d %s' % (p, hx('mV')))
+        sh.emit('setdef %d %s' % (p, hx('a property')))
+    return a, p
+
+
+def ro_refused(sh, a, p):
+    """modifications in the read-only session: every one is refused (the model answers ERR, no trace); the numeric
+    overwrites come first and in random order (HDF5 replaces its cached attribute before the write fails)"""
+    rnd = sh.rnd
+    calls = []
+    if a is not None:
+        calls += ['setorigin %d %s' % (a, 'd:4022000000000000'),
+                  'dimset %d 1 %d' % (a, 2 * rnd.randrange(500) * 32 + rnd.randrange(32)),            # interval first
+                  'dimset %d 1 %d' % (a, (2 * rnd.randrange(500) + 1) * 32 + rnd.randrange(32)),      # offset first
+                  'setlabel %d %s' % (a, hx('other')), 'setunit %d %s' % (a, hx('s')), 'setdef %d %s' % (a, hx('changed')),
+                  'settype %d %s' % (a, hx('t9')), 'forcecreated %d 1111111111' % a, 'setorigin %d -' % a, 'setlabel %d -' % a]
+    if p is not None:
+        calls += ['puncert %d %s' % (p, 'd:4022000000000000'), 'punit %d %s' % (p, hx('s')), 'setdef %d %s' % (p, hx('changed')),
+                  'puncert %d -' % p]
+    ks = sh.live('BSRADTMG')
+    for _ in range(2):
+        if ks:
+            k = rnd.choice(ks)
+            calls.append(rnd.choice(['settype %d %s' % (k, hx('t8')), 'setdef %d %s' % (k, hx('never')), 'setdef %d -' % k]))
+    ss = sh.live('S')
+    if ss:
+        calls.append('setrepo %d %s' % (rnd.choice(ss), hx('http://refused')))
+    calls.append('forcecreated F 1222222222')
+    rnd.shuffle(calls)
+    for c in calls[:rnd.randint(min(3, len(calls)), len(calls))]:
+        sh.emit(c, 'read-only')
+
+
+def ro_phase(sh, refused=True):
+    """a read-only session: refused modifications and queries, then back to read-write through every kind of reopen"""
+    rnd = sh.rnd
+    a = p = None
+    if refused:
+        a, p = ro_prepare(sh)
     sh.emit('reopen ro')
+    if refused:
+        ro_refused(sh, a, p)
     for _ in range(rnd.randint(0, 3)):
         if rnd.random() < 0.5:
-            p, K = rnd.choice(sh.containers())
-            sh.emit('chk %s %s' % (sh.ptok(p), K))
+            pp, K = rnd.choice(sh.containers())
+            sh.emit('chk %s %s' % (sh.ptok(pp), K))
         else:
             ls = sh.lcontainers()
             if ls:
                 h, sl = rnd.choice(ls)
                 sh.emit('lchk %d %s' % (h, sl))
-    if rnd.random() < 0.3:
-        sh.emit('reopen other')           # another reader next to a read-only session that was closed
+    q = rnd.random()
+    if q < 0.35:
+        sh.emit('reopen ro')              # the session after the refused calls against a fresh read-only one
+        if refused and rnd.random() < 0.5:
+            ro_refused(sh, a, p)
+    elif q < 0.6:
+        sh.emit('reopen other')           # ... against another process
     sh.emit('reopen rw')
+    # the read-write session goes on: the prepared attributes can be written now
+    if refused and a is not None and rnd.random() < 0.7:
+        sh.emit('setorigin %d %s' % (a, rnd.choice(DVALS)))
+        sh.emit('dimset %d 1 %d' % (a, rnd.randrange(1000)))
+    if refused and p is not None and rnd.random() < 0.7:
+        sh.emit('puncert %d %s' % (p, rnd.choice(DVALS)))
 
 
 def after_reopen(sh):
